@@ -806,7 +806,9 @@ class SgzReader(object):
                 chunk = self.read_subplane(min_trace, min_trace+self.blockshape[1],
                                            0, self.n_samples, access_padding=True)
 
-            trace = chunk[index % self.blockshape[1], 0:self.n_samples]
+            min_sample_id = 0 if min_sample_id is None else min_sample_id
+            max_sample_id = self.n_samples if max_sample_id is None else max_sample_id
+            trace = chunk[index % self.blockshape[1], min_sample_id:max_sample_id]
             return trace
 
         else:
